@@ -1045,7 +1045,9 @@ impl<'a> Runner<'a> {
                 if !rec.completed { continue; }
                 for d in rec.deps.iter() {
                   if d.target == Target::Res(key) && !d.serials.iter().any(|s| checked.contains(s)) {
-                    v(&["C03", "C08", "C09"], "bu-reported-dependency-not-checked", format!("resource {:?} was reported to the bottom-up build but the {:?} dependency of task {t} on it was not checked", key, d.kind));
+                    // After a checker error in this session the omission is (also) the error cutting validation short.
+                    let after_error = slice[..i].iter().any(|e| matches!(e, Ev::RCheck { verdict: Verdict::Error(_), .. }));
+                    v(if after_error { &["C03", "C08", "C09", "C18"] } else { &["C03", "C08", "C09"] }, "bu-reported-dependency-not-checked", format!("resource {:?} was reported to the bottom-up build but the {:?} dependency of task {t} on it was not checked", key, d.kind));
                     break 'outer;
                   }
                 }
